@@ -112,7 +112,12 @@ def gen_call(rng, P, mod, depth, scope, ids, ctor=None, width=None):
             n = len(call["list"]) - call["m"] + 1
         else:
             n = 1
-        call["bodies"][role] = {"id": bid, "types": types, "inner": inner, "reads": caps, "n": n}
+        from harness import lib_c19forms as forms
+
+        fm = rng.choice(forms.ACCEPTED) if rng.random() < 0.5 else None
+        if fm and not forms.applicable(fm, len(types)):
+            fm = None
+        call["bodies"][role] = {"id": bid, "types": types, "inner": inner, "reads": caps, "n": n, "form": fm}
     return call
 
 
@@ -250,6 +255,10 @@ def run_program(env, prog, steps=STEPS):
                 return list(args[: len(call["list"]) - call["m"]]) + [acc]
             return (x for x in [acc])  # SequenceMap: a one-shot result
 
+        if b.get("form"):
+            from harness import lib_c19forms as forms
+
+            return forms.make_form(b["form"], fun, len(b["types"]))
         return fun
 
     outs = None
